@@ -6,11 +6,14 @@
 #![allow(clippy::needless_range_loop, clippy::too_many_arguments, clippy::type_complexity)]
 
 mod cli;
+mod createmodel;
 mod enumerate;
+mod gen;
 mod json;
 mod par;
 mod props;
 mod refmodel;
+mod subject;
 mod verdict;
 
 use verdict::Tier;
